@@ -370,7 +370,7 @@ fn slot(vs: &[&str]) -> Slot {
     }
 }
 
-fn theme_func() -> Vec<Slot> {
+fn theme_func(_rng: &mut Rng) -> Vec<Slot> {
     vec![
         slot(&[
             "FUNCTION AddOne : INT\nVAR_INPUT\n    x : INT;\nEND_VAR\nAddOne := x + 1;\nEND_FUNCTION\n",
@@ -403,7 +403,7 @@ fn theme_func() -> Vec<Slot> {
     ]
 }
 
-fn theme_types() -> Vec<Slot> {
+fn theme_types(_rng: &mut Rng) -> Vec<Slot> {
     vec![
         slot(&[
             "TYPE\n    E_State : (Idle := 0, Starting := 1, Running := 2, Fault := 3);\n    ST_Cmd :\n    STRUCT\n        Enable : BOOL;\n        Speed : REAL;\n    END_STRUCT;\n    MyInt : INT;\nEND_TYPE\n",
@@ -428,7 +428,7 @@ fn theme_types() -> Vec<Slot> {
     ]
 }
 
-fn theme_globals() -> Vec<Slot> {
+fn theme_globals(_rng: &mut Rng) -> Vec<Slot> {
     vec![
         slot(&[
             "CONFIGURATION Conf\nVAR_GLOBAL\n    Shared : INT;\n    gFlag : BOOL;\nEND_VAR\nRESOURCE R ON CPU\n    TASK Fast (INTERVAL := T#10ms, PRIORITY := 1);\n    TASK Slow (INTERVAL := T#20ms, PRIORITY := 2);\n    PROGRAM P1 WITH Fast : Writer;\n    PROGRAM P2 WITH Slow : Reader;\nEND_RESOURCE\nEND_CONFIGURATION\n",
@@ -453,7 +453,7 @@ fn theme_globals() -> Vec<Slot> {
     ]
 }
 
-fn theme_ns() -> Vec<Slot> {
+fn theme_ns(_rng: &mut Rng) -> Vec<Slot> {
     vec![
         slot(&[
             "NAMESPACE Lib\nFUNCTION Inc : INT\nVAR_INPUT\n    x : INT;\nEND_VAR\nInc := x + INT#1;\nEND_FUNCTION\nEND_NAMESPACE\n",
@@ -478,7 +478,7 @@ fn theme_ns() -> Vec<Slot> {
     ]
 }
 
-fn theme_oop() -> Vec<Slot> {
+fn theme_oop(_rng: &mut Rng) -> Vec<Slot> {
     vec![
         slot(&[
             "INTERFACE IDevice\n    METHOD Start : BOOL\n    END_METHOD\nEND_INTERFACE\n",
@@ -510,7 +510,7 @@ fn theme_oop() -> Vec<Slot> {
 
 /// Same global names defined in several files: the cross-file import is in file-id order, so
 /// which definition a user sees depends on the relative id order of the defining files.
-fn theme_dups() -> Vec<Slot> {
+fn theme_dups(_rng: &mut Rng) -> Vec<Slot> {
     vec![
         slot(&[
             "FUNCTION Conv : INT\nVAR_INPUT\n    x : INT;\nEND_VAR\nConv := x;\nEND_FUNCTION\n",
@@ -529,6 +529,207 @@ fn theme_dups() -> Vec<Slot> {
             "PROGRAM User\nVAR\n    b : BOOL;\n    v : T_Val;\nEND_VAR\nb := Conv(b);\nv := 1;\nEND_PROGRAM\n",
             "PROGRAM User\nVAR\n    a : INT;\n    v : T_Val;\nEND_VAR\na := Conv(1);\nv := TRUE;\nEND_PROGRAM\n",
         ]),
+    ]
+}
+
+
+// ------------------------------------------------------------------------------------------------
+// Content stream: constant expressions with boundary arithmetic in every place where the symbol
+// collector or the type checker folds constants ("no query panics for any file contents")
+// ------------------------------------------------------------------------------------------------
+
+/// A boundary operand; the classes that make checked arithmetic matter are drawn more often.
+fn bval(rng: &mut Rng, named: bool) -> String {
+    let r = rng.below(18);
+    let pick = |rng: &mut Rng, xs: &[&str]| (*rng.pick(xs)).to_string();
+    match r {
+        0..=2 => {
+            if named && rng.chance(1, 3) {
+                "LOWEST".into()
+            } else {
+                pick(rng, &["(-9223372036854775807 - 1)", "(-9223372036854775807 - 1)", "(-16#7FFF_FFFF_FFFF_FFFF - 1)"])
+            }
+        }
+        3..=5 => {
+            if named && rng.chance(1, 4) {
+                "NEG1".into()
+            } else {
+                pick(rng, &["(-1)", "-1", "(0 - 1)", "(-1)"])
+            }
+        }
+        6 | 7 => {
+            if named && rng.chance(1, 3) {
+                "HIGHEST".into()
+            } else {
+                pick(rng, &["9223372036854775807", "16#7FFF_FFFF_FFFF_FFFF"])
+            }
+        }
+        8 | 9 => "0".into(),
+        10 => "1".into(),
+        11 => "2".into(),
+        12 => pick(rng, &["(-2147483647 - 1)", "(-32767 - 1)", "(-127 - 1)", "-128"]),
+        13 => pick(rng, &["2147483647", "32767", "127", "4294967295", "65535", "255"]),
+        14 => "63".into(),
+        15 => "64".into(),
+        16 => "(-9223372036854775807)".into(),
+        _ => "(-2)".into(),
+    }
+}
+
+const COPS: [&str; 6] = ["+", "-", "*", "/", "MOD", "**"];
+
+fn catom(rng: &mut Rng, named: bool) -> String {
+    if rng.chance(2, 3) {
+        return bval(rng, named);
+    }
+    (*rng.pick(&[
+        "128", "256", "32768", "65536", "2147483648", "4294967296", "9223372036854775808",
+        "18446744073709551615", "16#FFFF_FFFF_FFFF_FFFF", "16#8000_0000_0000_0000", "2#1010", "8#17",
+        "1_000", "INT#5", "SINT#-128", "DINT#16#FFFF", "LINT#9223372036854775807", "USINT#255", "TRUE",
+        "1.5", "T#1s", "c0", "c1", "A0", "E0#B0", "Undefined",
+    ]))
+    .to_string()
+}
+
+/// A constant expression: half of the time a plain `boundary op boundary`, otherwise a small tree.
+fn cexpr(rng: &mut Rng, depth: u32, named: bool) -> String {
+    if depth == 0 && rng.chance(1, 2) {
+        let (a, b) = (bval(rng, named), bval(rng, named));
+        return format!("{a} {} {b}", rng.pick(&COPS));
+    }
+    if depth >= 3 || rng.chance(1, 3) {
+        return catom(rng, named);
+    }
+    match rng.below(6) {
+        0 => format!("-{}", cexpr(rng, depth + 1, named)),
+        1 => format!("({})", cexpr(rng, depth + 1, named)),
+        2 => format!("+{}", cexpr(rng, depth + 1, named)),
+        _ => {
+            let a = cexpr(rng, depth + 1, named);
+            let b = cexpr(rng, depth + 1, named);
+            let (a, b) = if rng.bool() { (format!("({a})"), format!("({b})")) } else { (a, b) };
+            format!("{a} {} {b}", rng.pick(&COPS))
+        }
+    }
+}
+
+const NAMED_CONSTS: &str = "    LOWEST : LINT := -9223372036854775807 - 1;\n    HIGHEST : LINT := 9223372036854775807;\n    NEG1 : LINT := -1;\n";
+
+fn consts_program(rng: &mut Rng, name: &str) -> String {
+    let mut s = format!("PROGRAM {name}\nVAR CONSTANT\n{NAMED_CONSTS}");
+    for i in 0..(6 + rng.below(8)) {
+        let ty = *rng.pick(&["LINT", "LINT", "DINT", "INT", "SINT", "ULINT", "UDINT"]);
+        let _ = writeln!(s, "    c{i} : {ty} := {};", cexpr(rng, 0, true));
+    }
+    s.push_str("END_VAR\nVAR\n    x : LINT;\n    arr : ARRAY[0..3] OF INT;\n    sr : INT(0..10);\n");
+    for i in 0..(2 + rng.below(4)) {
+        match rng.below(4) {
+            0 => {
+                let _ = writeln!(s, "    a{i} : ARRAY[{}..{}] OF BOOL;", cexpr(rng, 0, true), cexpr(rng, 0, true));
+            }
+            1 => {
+                let _ = writeln!(s, "    r{i} : LINT({}..{});", cexpr(rng, 0, true), cexpr(rng, 0, true));
+            }
+            2 => {
+                let _ = writeln!(s, "    s{i} : STRING[{}];", cexpr(rng, 0, true));
+            }
+            _ => {
+                let _ = writeln!(s, "    w{i} : ARRAY[0..{}, {}..1] OF INT;", cexpr(rng, 0, true), cexpr(rng, 0, true));
+            }
+        }
+    }
+    s.push_str("END_VAR\nx := c0 + c1;\nCASE x OF\n");
+    for _ in 0..(2 + rng.below(4)) {
+        if rng.bool() {
+            let _ = writeln!(s, "    {}: x := 1;", cexpr(rng, 0, true));
+        } else {
+            let _ = writeln!(s, "    {}..{}: x := 2;", cexpr(rng, 0, true), cexpr(rng, 0, true));
+        }
+    }
+    s.push_str("END_CASE;\n");
+    for _ in 0..(1 + rng.below(3)) {
+        let _ = writeln!(s, "arr[{}] := 1;", cexpr(rng, 0, true));
+        let _ = writeln!(s, "sr := {};", cexpr(rng, 0, true));
+        let _ = writeln!(s, "x := {};", cexpr(rng, 0, true));
+    }
+    let _ = writeln!(s, "END_PROGRAM");
+    s
+}
+
+fn consts_types(rng: &mut Rng) -> String {
+    let mut s = String::from("TYPE\n");
+    for i in 0..(3 + rng.below(5)) {
+        match rng.below(5) {
+            0 => {
+                let _ = writeln!(s, "    E{i} : (A{i} := {}, B{i} := {}, C{i});", cexpr(rng, 0, false), cexpr(rng, 0, false));
+            }
+            1 => {
+                let base = *rng.pick(&["LINT", "DINT", "INT", "SINT", "ULINT"]);
+                let _ = writeln!(s, "    S{i} : {base}({}..{});", cexpr(rng, 0, false), cexpr(rng, 0, false));
+            }
+            2 => {
+                let _ = writeln!(s, "    R{i} : ARRAY[{}..{}] OF INT;", cexpr(rng, 0, false), cexpr(rng, 0, false));
+            }
+            3 => {
+                let _ = writeln!(s, "    STR{i} : STRING[{}];", cexpr(rng, 0, false));
+            }
+            _ => {
+                let _ = writeln!(
+                    s,
+                    "    ST{i} :\n    STRUCT\n        f : ARRAY[{}..{}] OF BOOL;\n        g : INT({}..{});\n    END_STRUCT;",
+                    cexpr(rng, 0, false),
+                    cexpr(rng, 0, false),
+                    cexpr(rng, 0, false),
+                    cexpr(rng, 0, false)
+                );
+            }
+        }
+    }
+    s.push_str("    E0x : (A0 := 1, B0 := 2);\n    SmallT : INT(0..10);\nEND_TYPE\n");
+    s
+}
+
+fn consts_fb(rng: &mut Rng) -> String {
+    let mut s = format!("FUNCTION_BLOCK FB_Consts\nVAR CONSTANT\n{NAMED_CONSTS}");
+    for i in 0..(4 + rng.below(6)) {
+        let _ = writeln!(s, "    c{i} : LINT := {};", cexpr(rng, 0, true));
+    }
+    s.push_str("END_VAR\nVAR_OUTPUT\n    outv : LINT;\nEND_VAR\nVAR\n");
+    let _ = writeln!(s, "    buf : ARRAY[{}..{}] OF SmallT;", cexpr(rng, 0, true), cexpr(rng, 0, true));
+    let _ = writeln!(s, "    lim : DINT({}..{});", cexpr(rng, 0, true), cexpr(rng, 0, true));
+    s.push_str("END_VAR\noutv := c0;\n");
+    let _ = writeln!(s, "buf[{}] := {};", cexpr(rng, 0, true), cexpr(rng, 0, true));
+    let _ = writeln!(s, "lim := {};", cexpr(rng, 0, true));
+    s.push_str("END_FUNCTION_BLOCK\n\nFUNCTION CFold : LINT\nVAR_INPUT\n    p : LINT;\nEND_VAR\nVAR CONSTANT\n");
+    let _ = writeln!(s, "    k : LINT := {};", cexpr(rng, 0, false));
+    s.push_str("END_VAR\nCFold := p + k;\nEND_FUNCTION\n");
+    s
+}
+
+/// Folding constants that come from *other* files (types, enum values, a function block).
+fn consts_user(rng: &mut Rng) -> String {
+    let mut s = String::from("PROGRAM CUser\nVAR\n    fb : FB_Consts;\n    v : SmallT;\n    e : E0x;\n    y : LINT;\n");
+    let _ = writeln!(s, "    t : ARRAY[A0..{}] OF INT;", cexpr(rng, 0, false));
+    s.push_str("END_VAR\nVAR CONSTANT\n");
+    let _ = writeln!(s, "    q : LINT := {};", cexpr(rng, 0, false));
+    s.push_str("END_VAR\nfb();\ny := CFold(fb.outv) + q;\n");
+    let _ = writeln!(s, "v := {};", cexpr(rng, 0, false));
+    let _ = writeln!(s, "t[{}] := 1;", cexpr(rng, 0, false));
+    s.push_str("CASE e OF\n    E0x#A0: y := 1;\n");
+    let _ = writeln!(s, "    {}: y := 2;", cexpr(rng, 0, false));
+    s.push_str("END_CASE;\nEND_PROGRAM\n");
+    s
+}
+
+fn theme_consts(rng: &mut Rng) -> Vec<Slot> {
+    let gen = |rng: &mut Rng, f: &dyn Fn(&mut Rng) -> String| Slot {
+        variants: (0..5).map(|_| f(rng)).collect(),
+    };
+    vec![
+        gen(rng, &|r| consts_types(r)),
+        gen(rng, &|r| consts_program(r, "CMain")),
+        gen(rng, &|r| consts_fb(r)),
+        gen(rng, &|r| consts_user(r)),
     ]
 }
 
@@ -627,30 +828,36 @@ pub struct Pool {
     pub theme: &'static str,
 }
 
+type Theme = (&'static str, fn(&mut Rng) -> Vec<Slot>);
+
+const THEMES: [Theme; 7] = [
+    ("func", theme_func),
+    ("types", theme_types),
+    ("globals", theme_globals),
+    ("ns", theme_ns),
+    ("oop", theme_oop),
+    ("dups", theme_dups),
+    ("consts", theme_consts),
+];
+
 pub fn pick_pool(rng: &mut Rng, corpus: &[Slot]) -> Pool {
-    let themes: [(&'static str, fn() -> Vec<Slot>); 6] = [
-        ("func", theme_func),
-        ("types", theme_types),
-        ("globals", theme_globals),
-        ("ns", theme_ns),
-        ("oop", theme_oop),
-        ("dups", theme_dups),
-    ];
-    let r = rng.below(16);
-    if r < 12 {
-        let (name, f) = themes[(r % 6) as usize];
-        let mut slots = f();
+    let r = rng.below(20);
+    if r < 16 {
+        // duplicate names and constant folding are drawn more often than the other themes
+        let idx = [0usize, 1, 2, 3, 4, 5, 6, 0, 1, 2, 3, 4, 5, 6, 5, 6][r as usize];
+        let (name, f) = THEMES[idx];
+        let mut slots = f(rng);
         if rng.chance(1, 3) {
             // widen with a second theme (up to five files in total)
-            let (_, g) = themes[rng.below(6) as usize];
-            for s in g() {
+            let (_, g) = THEMES[rng.below(7) as usize];
+            for s in g(rng) {
                 if slots.len() < 5 {
                     slots.push(s);
                 }
             }
         }
         Pool { slots, theme: name }
-    } else if r < 14 && corpus.len() >= 2 {
+    } else if r < 18 && corpus.len() >= 2 {
         // a real example project (or a part of it)
         let start = rng.below(corpus.len() as u64) as usize;
         let n = 2 + rng.below(4) as usize;
@@ -667,8 +874,8 @@ pub fn pick_pool(rng: &mut Rng, corpus: &[Slot]) -> Pool {
         // mixed bag incl. garbage
         let mut slots = Vec::new();
         for _ in 0..(1 + rng.below(5)) {
-            let (_, f) = themes[rng.below(6) as usize];
-            let mut ss = f();
+            let (_, f) = THEMES[rng.below(7) as usize];
+            let mut ss = f(rng);
             let k = rng.below(ss.len() as u64) as usize;
             slots.push(ss.swap_remove(k));
         }
@@ -898,9 +1105,266 @@ fn pick_arg(rng: &mut Rng, kind: Kind, text: Option<&str>, db: &Database, file: 
     }
 }
 
-fn run_db_case(n: u64, rng: &mut Rng, steps: usize, corpus: &[Slot], out: &mut Out) {
-    let pool = pick_pool(rng, corpus);
-    out.count(&format!("theme_{}", pool.theme));
+/// Operations of a generated Database-layer script (targets are resolved when the op runs).
+#[derive(Clone)]
+enum DOp {
+    /// set a random file of the case (new / edit / re-add / identical, whatever it turns out to be)
+    Set,
+    /// preload: set the file that plays slot `k`
+    SetSlot(usize),
+    /// add a file that is currently absent (new or re-add)
+    SetAbsent,
+    /// edit a file that is currently present
+    SetPresent,
+    /// remove a random file (mostly a present one)
+    Rm,
+    /// remove a present file other than the one touched by the previous op
+    RmOther,
+    /// remove the present file with the lowest id and remember its text …
+    RmLowest,
+    /// … and add it again with the same text
+    SetBack,
+    /// 1..3 random queries
+    Burst,
+    /// project-keyed queries (diagnostics, analyze, then type_of) for every present file and one
+    /// absent file, before any per-file query
+    ProjSweep,
+    /// all kinds over all files of the case and an unknown file, in random order
+    FullSweep,
+    /// forced operations (recorded witnesses)
+    FixedSet(u32, String),
+    FixedQ(Kind, u32, u32),
+}
+
+/// Motifs: the interleavings in which the double bookkeeping can go stale — a file is added (or
+/// re-added) and, *before any project-level query*, another file is edited or removed; a lower-id
+/// file is removed and re-added; or a project-level sweep after every single operation.
+fn motif_script(rng: &mut Rng, nfiles: usize, steps: usize) -> Vec<DOp> {
+    let mut order: Vec<usize> = (0..nfiles).collect();
+    for i in (1..order.len()).rev() {
+        let j = rng.below(i as u64 + 1) as usize;
+        order.swap(i, j);
+    }
+    let keep = if nfiles > 1 { nfiles - rng.below(2) as usize } else { nfiles };
+    let mut script: Vec<DOp> = Vec::new();
+    if rng.chance(1, 3) {
+        script.push(DOp::ProjSweep); // the project is queried while still empty
+    }
+    for k in order.into_iter().take(keep) {
+        script.push(DOp::SetSlot(k));
+        if rng.chance(1, 3) {
+            script.push(DOp::ProjSweep);
+        }
+    }
+    script.push(DOp::ProjSweep);
+    while script.len() + 1 < steps {
+        match rng.below(8) {
+            0 => script.extend([DOp::SetAbsent, DOp::SetPresent, DOp::ProjSweep]),
+            1 => script.extend([DOp::SetAbsent, DOp::RmOther, DOp::ProjSweep]),
+            2 => script.extend([DOp::RmLowest, DOp::SetBack, DOp::ProjSweep]),
+            3 => script.extend([DOp::RmLowest, DOp::ProjSweep, DOp::SetBack, DOp::ProjSweep]),
+            4 => script.extend([DOp::SetPresent, DOp::ProjSweep]),
+            5 => script.extend([DOp::Rm, DOp::ProjSweep, DOp::SetAbsent, DOp::ProjSweep]),
+            6 => script.extend([DOp::SetAbsent, DOp::SetAbsent, DOp::SetPresent, DOp::ProjSweep]),
+            _ => script.extend([DOp::Set, DOp::Burst]),
+        }
+    }
+    script.push(DOp::FullSweep);
+    script
+}
+
+fn random_script(rng: &mut Rng, nfiles: usize, steps: usize) -> Vec<DOp> {
+    // an initial load of some of the files, so that most histories start from a project
+    let preload = if rng.chance(3, 4) { rng.below(nfiles as u64 + 1) as usize } else { 0 };
+    let mut script: Vec<DOp> = (0..preload).map(DOp::SetSlot).collect();
+    while script.len() + 1 < steps.max(1) {
+        let r = rng.below(100);
+        script.push(if r < 42 { DOp::Set } else if r < 53 { DOp::Rm } else { DOp::Burst });
+    }
+    script.push(DOp::FullSweep); // every history ends with a sweep over all files and kinds
+    script
+}
+
+/// The recorded witness of known finding `C13-enum-next-value-overflow` (Database layer):
+/// `next_value = value + 1` in `collect_enum_type` overflows for an enum value of `i64::MAX`; in the
+/// dev profile every query of the file, and every project-level query of every other file, panics.
+fn enum_overflow_witness() -> Vec<DOp> {
+    let e = "TYPE\n    E : (A := 9223372036854775807);\nEND_TYPE\n";
+    let m = "PROGRAM Main\nVAR\n    x : INT;\nEND_VAR\nx := 1;\nEND_PROGRAM\n";
+    vec![
+        DOp::FixedSet(2, m.into()),
+        DOp::FixedQ(Kind::Diagnostics, 2, 0),
+        DOp::FixedSet(1, e.into()),
+        DOp::FixedQ(Kind::Diagnostics, 2, 0),
+        DOp::FixedQ(Kind::FileSymbols, 1, 0),
+    ]
+}
+
+struct DbCase<'a> {
+    db: Database,
+    texts: Texts,
+    finals: BTreeMap<u32, String>,
+    removed_once: Vec<u32>,
+    ever_removed: bool,
+    readded: bool,
+    queried_before_edit: bool,
+    edits_after_query: u32,
+    burst_fresh: Option<Database>,
+    aborted: bool,
+    last_touched: Option<u32>,
+    remembered: Option<(u32, String)>,
+    out: &'a mut Out,
+}
+
+impl DbCase<'_> {
+    fn set(&mut self, id: u32, text: String) {
+        let ti = self.texts.intern(&text, self.out);
+        self.out.line(format!("set {id} {ti}"));
+        if self.finals.get(&id) == Some(&text) {
+            self.out.count("op_set_identical");
+        } else if self.finals.contains_key(&id) {
+            self.out.count("op_set_edit");
+        } else if self.removed_once.contains(&id) {
+            self.out.count("op_set_readd");
+            self.readded = true;
+        } else {
+            self.out.count("op_set_new");
+        }
+        if self.queried_before_edit {
+            self.edits_after_query += 1;
+        }
+        let db = &mut self.db;
+        let r = catch_unwind(AssertUnwindSafe(|| db.set_source_text(FileId(id), text.clone())));
+        self.finals.insert(id, text);
+        self.burst_fresh = None;
+        self.last_touched = Some(id);
+        if r.is_err() {
+            self.out.line("impl panic");
+            self.out.line(format!("#o set {id} 0 fresh=1 repeat=1 panic=1 h=0"));
+            self.out.line(format!("#x panic {}", hex(take_panic().as_bytes())));
+            self.aborted = true;
+            return;
+        }
+        self.out.line(format!("impl {}", render_view(&self.db, &self.texts)));
+    }
+
+    fn rm(&mut self, id: u32) {
+        self.out.line(format!("rm {id}"));
+        if self.finals.remove(&id).is_some() {
+            self.out.count("op_rm_present");
+            self.ever_removed = true;
+            if !self.removed_once.contains(&id) {
+                self.removed_once.push(id);
+            }
+        } else {
+            self.out.count("op_rm_absent");
+        }
+        if self.queried_before_edit {
+            self.edits_after_query += 1;
+        }
+        let db = &mut self.db;
+        let r = catch_unwind(AssertUnwindSafe(|| db.remove_source_text(FileId(id))));
+        self.burst_fresh = None;
+        self.last_touched = Some(id);
+        if r.is_err() {
+            self.out.line("impl panic");
+            self.out.line(format!("#o rm {id} 0 fresh=1 repeat=1 panic=1 h=0"));
+            self.out.line(format!("#x panic {}", hex(take_panic().as_bytes())));
+            self.aborted = true;
+            return;
+        }
+        self.out.line(format!("impl {}", render_view(&self.db, &self.texts)));
+    }
+
+    /// One query: the hook view as `impl` line (the bookkeeping is observable even if the analysis
+    /// panics: queries run outside the state lock), the oracle verdict as `#o` line.
+    fn query(&mut self, rng: &mut Rng, kind: Kind, f: u32, arg: u32) {
+        self.out.line(format!("q {} {f} {arg}", kind.name()));
+        self.out.count(&format!("q_{}", kind.name()));
+        if self.finals.contains_key(&f) {
+            self.out.count("q_on_present_file");
+        } else if self.removed_once.contains(&f) {
+            self.out.count("q_on_removed_file");
+        } else {
+            self.out.count("q_on_unknown_file");
+        }
+        // strict: a brand-new database for this very query (1 in 3), otherwise the fresh database
+        // of the current burst of queries (no edit in between)
+        if self.burst_fresh.is_none() || rng.chance(1, 3) {
+            let finals = &self.finals;
+            match catch_unwind(AssertUnwindSafe(|| fresh_db(rng, finals))) {
+                Ok(f) => self.burst_fresh = Some(f),
+                Err(_) => {
+                    self.out.line("impl panic");
+                    self.out.line(format!("#o {} {f} {arg} fresh=1 repeat=1 panic=1 h=0", kind.name()));
+                    self.out.line(format!("#x panic {}", hex(take_panic().as_bytes())));
+                    self.aborted = true;
+                    return;
+                }
+            }
+            self.out.count("fresh_databases");
+        }
+        let fresh = self.burst_fresh.as_ref().expect("fresh");
+        let v = judge(&self.db, fresh, kind, f, arg, &ident, &ident, f, true);
+        self.out.line(format!(
+            "impl {} reads={}",
+            render_view(&self.db, &self.texts),
+            render_reads(&self.db, &self.texts, kind, f)
+        ));
+        self.out.line(format!(
+            "#o {} {f} {arg} fresh={} repeat={} panic={} h={:016x}",
+            kind.name(),
+            u8::from(v.fresh),
+            u8::from(v.repeat),
+            u8::from(v.panic),
+            v.hash
+        ));
+        if let Some((a, b)) = v.detail {
+            if v.panic {
+                self.out.line(format!("#x panic {}", hex(a.as_bytes())));
+            } else {
+                self.out.line(format!("#x inc {}", hex(a.as_bytes())));
+                self.out.line(format!("#x fresh {}", hex(b.as_bytes())));
+            }
+        }
+        if v.size > 0 {
+            self.out.count("q_nonempty_answer");
+            if kind == Kind::TypeOf {
+                self.out.count("q_typeof_known_type");
+            }
+        }
+        self.out.count(&format!("files_at_query_{}", self.finals.len()));
+        if v.panic {
+            self.out.count("q_panicked");
+            // the fresh database of the burst may be left half-evaluated: start a new one
+            self.burst_fresh = None;
+        }
+        self.queried_before_edit = true;
+    }
+}
+
+fn run_db_case(
+    n: u64,
+    rng: &mut Rng,
+    steps: usize,
+    corpus: &[Slot],
+    out: &mut Out,
+    focus: bool,
+    forced: Option<Vec<DOp>>,
+) {
+    let pool = if focus {
+        // duplicate global names across files with a user file: where import order is visible
+        if rng.chance(2, 3) {
+            Pool { slots: theme_dups(rng), theme: "dups" }
+        } else {
+            Pool { slots: theme_func(rng), theme: "func" }
+        }
+    } else {
+        pick_pool(rng, corpus)
+    };
+    if forced.is_none() {
+        out.count(&format!("theme_{}", pool.theme));
+    }
     let nfiles = pool.slots.len().min(5).max(1);
     // distinct file ids in random relative order
     let mut ids: Vec<u32> = Vec::new();
@@ -918,63 +1382,71 @@ fn run_db_case(n: u64, rng: &mut Rng, steps: usize, corpus: &[Slot], out: &mut O
     };
     out.line(format!("case {n}"));
     out.line("stream db");
-    let mut texts = Texts::default();
-    let mut db = Database::new();
-    let mut finals: BTreeMap<u32, String> = BTreeMap::new();
-    let mut ever_removed = false;
-    let mut readded = false;
-    let mut removed_once: Vec<u32> = Vec::new();
-    let mut queried_before_edit = false;
-    let mut edits_after_query = 0u32;
-    let mut burst_fresh: Option<Database> = None;
-    let mut aborted = false;
-    // an initial load of some of the files, so that most histories start from a project
-    let preload = if rng.chance(3, 4) { rng.below(nfiles as u64 + 1) as usize } else { 0 };
-    let mut script: Vec<u8> = vec![0; preload]; // 0 = set, 1 = rm, 2 = query
-    while script.len() < steps {
-        let r = rng.below(100);
-        script.push(if r < 42 { 0 } else if r < 53 { 1 } else { 2 });
-    }
-    if let Some(last) = script.last_mut() {
-        *last = 2; // every history ends with a sweep over all files and kinds
-    }
-    let total = script.len();
-    for (step, op) in script.into_iter().enumerate() {
-        let sweep = step + 1 == total;
+    let script = match forced {
+        Some(f) => {
+            out.line("tag witness");
+            f
+        }
+        None if focus || rng.chance(2, 5) => {
+            out.count("script_motif");
+            motif_script(rng, nfiles, steps)
+        }
+        None => {
+            out.count("script_random");
+            random_script(rng, nfiles, steps)
+        }
+    };
+    let mut c = DbCase {
+        db: Database::new(),
+        texts: Texts::default(),
+        finals: BTreeMap::new(),
+        removed_once: Vec::new(),
+        ever_removed: false,
+        readded: false,
+        queried_before_edit: false,
+        edits_after_query: 0,
+        burst_fresh: None,
+        aborted: false,
+        last_touched: None,
+        remembered: None,
+        out,
+    };
+    let slot_of = |id: u32| ids.iter().position(|x| *x == id).unwrap_or(0);
+    for op in script {
+        if c.aborted {
+            break;
+        }
+        let present: Vec<u32> = c.finals.keys().copied().collect();
+        let absent: Vec<u32> = ids.iter().copied().filter(|i| !c.finals.contains_key(i)).collect();
         match op {
-            0 => {
-                let k = if step < preload { step } else { rng.below(nfiles as u64) as usize };
-                let id = if rng.chance(1, 40) { ghost } else { ids[k] };
-                let text = next_text(rng, &pool, k, finals.get(&id).map(|s| s.as_str()), out);
-                let ti = texts.intern(&text, out);
-                out.line(format!("set {id} {ti}"));
-                if finals.get(&id) == Some(&text) {
-                    out.count("op_set_identical");
-                } else if finals.contains_key(&id) {
-                    out.count("op_set_edit");
-                } else if removed_once.contains(&id) {
-                    out.count("op_set_readd");
-                    readded = true;
-                } else {
-                    out.count("op_set_new");
+            DOp::Set | DOp::SetSlot(_) | DOp::SetAbsent | DOp::SetPresent => {
+                let id = match op {
+                    DOp::SetSlot(k) => ids[k % nfiles],
+                    DOp::SetAbsent if !absent.is_empty() => *rng.pick(&absent),
+                    DOp::SetPresent if !present.is_empty() => *rng.pick(&present),
+                    _ => {
+                        if rng.chance(1, 40) {
+                            ghost
+                        } else {
+                            ids[rng.below(nfiles as u64) as usize]
+                        }
+                    }
+                };
+                let cur = c.finals.get(&id).cloned();
+                let mut text = next_text(rng, &pool, slot_of(id), cur.as_deref(), c.out);
+                if matches!(op, DOp::SetPresent) && Some(&text) == cur.as_ref() {
+                    // an edit must change the text, otherwise the early return hides the motif
+                    text = mutate(rng, &text);
                 }
-                if queried_before_edit {
-                    edits_after_query += 1;
-                }
-                let r = catch_unwind(AssertUnwindSafe(|| db.set_source_text(FileId(id), text.clone())));
-                finals.insert(id, text);
-                burst_fresh = None;
-                if r.is_err() {
-                    out.line("impl panic");
-                    out.line(format!("#o set {id} 0 fresh=1 repeat=1 panic=1 h=0"));
-                    out.line(format!("#x panic {}", hex(take_panic().as_bytes())));
-                    aborted = true;
-                    break;
-                }
-                out.line(format!("impl {}", render_view(&db, &texts)));
+                c.set(id, text);
             }
-            1 => {
-                let present: Vec<u32> = finals.keys().copied().collect();
+            DOp::FixedSet(id, text) => c.set(id, text),
+            DOp::SetBack => {
+                if let Some((id, text)) = c.remembered.take() {
+                    c.set(id, text);
+                }
+            }
+            DOp::Rm => {
                 let r = rng.below(100);
                 let id = if r < 75 && !present.is_empty() {
                     *rng.pick(&present)
@@ -983,149 +1455,106 @@ fn run_db_case(n: u64, rng: &mut Rng, steps: usize, corpus: &[Slot], out: &mut O
                 } else {
                     ghost
                 };
-                out.line(format!("rm {id}"));
-                if finals.remove(&id).is_some() {
-                    out.count("op_rm_present");
-                    ever_removed = true;
-                    if !removed_once.contains(&id) {
-                        removed_once.push(id);
-                    }
-                } else {
-                    out.count("op_rm_absent");
-                }
-                if queried_before_edit {
-                    edits_after_query += 1;
-                }
-                let r = catch_unwind(AssertUnwindSafe(|| db.remove_source_text(FileId(id))));
-                burst_fresh = None;
-                if r.is_err() {
-                    out.line("impl panic");
-                    out.line(format!("#o rm {id} 0 fresh=1 repeat=1 panic=1 h=0"));
-                    out.line(format!("#x panic {}", hex(take_panic().as_bytes())));
-                    aborted = true;
-                    break;
-                }
-                out.line(format!("impl {}", render_view(&db, &texts)));
+                c.rm(id);
             }
-            _ => {
-                // one query, or (last step) a sweep over every file, an absent file and every kind
-                let mut qs: Vec<(Kind, u32, u32)> = Vec::new();
-                if sweep {
-                    let mut files: Vec<u32> = ids.clone();
-                    files.push(ghost);
-                    for f in files {
-                        for kind in KINDS {
-                            let reps = if matches!(kind, Kind::TypeOf | Kind::ExprIdAt) { 4 } else { 1 };
-                            for _ in 0..reps {
-                                let arg = pick_arg(rng, kind, finals.get(&f).map(|s| s.as_str()), &db, f);
-                                qs.push((kind, f, arg));
-                            }
-                        }
-                    }
-                    // random order: which query is memoised first must not matter
-                    for i in (1..qs.len()).rev() {
-                        let j = rng.below(i as u64 + 1) as usize;
-                        qs.swap(i, j);
-                    }
-                } else {
-                    // a burst of 1..3 queries: which of them is memoised first varies
-                    for _ in 0..(1 + rng.below(3)) {
-                        let kind = *rng.pick(&KINDS);
-                        let present: Vec<u32> = finals.keys().copied().collect();
-                        let r = rng.below(100);
-                        let f = if r < 80 && !present.is_empty() {
-                            *rng.pick(&present)
-                        } else if r < 92 {
-                            ids[rng.below(nfiles as u64) as usize]
-                        } else {
-                            ghost
-                        };
-                        let arg = pick_arg(rng, kind, finals.get(&f).map(|s| s.as_str()), &db, f);
-                        qs.push((kind, f, arg));
-                    }
+            DOp::RmOther => {
+                let others: Vec<u32> =
+                    present.iter().copied().filter(|i| Some(*i) != c.last_touched).collect();
+                if !others.is_empty() {
+                    let id = *rng.pick(&others);
+                    c.rm(id);
                 }
-                for (kind, f, arg) in qs {
-                    out.line(format!("q {} {f} {arg}", kind.name()));
-                    out.count(&format!("q_{}", kind.name()));
-                    if finals.contains_key(&f) {
-                        out.count("q_on_present_file");
-                    } else if removed_once.contains(&f) {
-                        out.count("q_on_removed_file");
+            }
+            DOp::RmLowest => {
+                if let Some(id) = present.first().copied() {
+                    c.remembered = c.finals.get(&id).map(|t| (id, t.clone()));
+                    c.rm(id);
+                }
+            }
+            DOp::FixedQ(kind, f, arg) => c.query(rng, kind, f, arg),
+            DOp::Burst => {
+                // a burst of 1..3 queries: which of them is memoised first varies
+                for _ in 0..(1 + rng.below(3)) {
+                    let kind = *rng.pick(&KINDS);
+                    let r = rng.below(100);
+                    let f = if r < 80 && !present.is_empty() {
+                        *rng.pick(&present)
+                    } else if r < 92 {
+                        ids[rng.below(nfiles as u64) as usize]
                     } else {
-                        out.count("q_on_unknown_file");
-                    }
-                    // strict: a brand-new database for this very query (1 in 3), otherwise the
-                    // fresh database of the current burst of queries (no edit in between)
-                    if burst_fresh.is_none() || rng.chance(1, 3) {
-                        match catch_unwind(AssertUnwindSafe(|| fresh_db(rng, &finals))) {
-                            Ok(f) => burst_fresh = Some(f),
-                            Err(_) => {
-                                out.line("impl panic");
-                                out.line(format!("#o {} {f} {arg} fresh=1 repeat=1 panic=1 h=0", kind.name()));
-                                out.line(format!("#x panic {}", hex(take_panic().as_bytes())));
-                                aborted = true;
-                                break;
-                            }
-                        }
-                        out.count("fresh_databases");
-                    }
-                    let fresh = burst_fresh.as_ref().expect("fresh");
-                    let v = judge(&db, fresh, kind, f, arg, &ident, &ident, f, true);
-                    if v.panic {
-                        out.line("impl panic");
-                    } else {
-                        out.line(format!(
-                            "impl {} reads={}",
-                            render_view(&db, &texts),
-                            render_reads(&db, &texts, kind, f)
-                        ));
-                    }
-                    out.line(format!(
-                        "#o {} {f} {arg} fresh={} repeat={} panic={} h={:016x}",
-                        kind.name(),
-                        u8::from(v.fresh),
-                        u8::from(v.repeat),
-                        u8::from(v.panic),
-                        v.hash
-                    ));
-                    if let Some((a, b)) = v.detail {
-                        if v.panic {
-                            out.line(format!("#x panic {}", hex(a.as_bytes())));
-                        } else {
-                            out.line(format!("#x inc {}", hex(a.as_bytes())));
-                            out.line(format!("#x fresh {}", hex(b.as_bytes())));
-                        }
-                    }
-                    if v.size > 0 {
-                        out.count("q_nonempty_answer");
-                        if kind == Kind::TypeOf {
-                            out.count("q_typeof_known_type");
-                        }
-                    }
-                    out.count(&format!("files_at_query_{}", finals.len()));
-                    if v.panic {
-                        aborted = true;
+                        ghost
+                    };
+                    let arg = pick_arg(rng, kind, c.finals.get(&f).map(|s| s.as_str()), &c.db, f);
+                    c.query(rng, kind, f, arg);
+                    if c.aborted {
                         break;
                     }
-                    queried_before_edit = true;
                 }
-                if aborted {
-                    break;
+            }
+            DOp::ProjSweep => {
+                c.out.count("proj_sweeps");
+                let mut files = present.clone();
+                if let Some(a) = absent.first() {
+                    files.push(*a);
+                }
+                for i in (1..files.len()).rev() {
+                    let j = rng.below(i as u64 + 1) as usize;
+                    files.swap(i, j);
+                }
+                // project-keyed queries first: no per-file query may materialise a pending file
+                for kind in [Kind::Diagnostics, Kind::Analyze] {
+                    for f in &files {
+                        if rng.chance(3, 4) {
+                            c.query(rng, kind, *f, 0);
+                        }
+                    }
+                }
+                for f in &files {
+                    if rng.chance(1, 2) {
+                        let arg =
+                            pick_arg(rng, Kind::TypeOf, c.finals.get(f).map(|s| s.as_str()), &c.db, *f);
+                        c.query(rng, Kind::TypeOf, *f, arg);
+                    }
+                }
+            }
+            DOp::FullSweep => {
+                let mut qs: Vec<(Kind, u32, u32)> = Vec::new();
+                let mut files: Vec<u32> = ids.clone();
+                files.push(ghost);
+                for f in files {
+                    for kind in KINDS {
+                        let reps = if matches!(kind, Kind::TypeOf | Kind::ExprIdAt) { 4 } else { 1 };
+                        for _ in 0..reps {
+                            let arg = pick_arg(rng, kind, c.finals.get(&f).map(|s| s.as_str()), &c.db, f);
+                            qs.push((kind, f, arg));
+                        }
+                    }
+                }
+                // random order: which query is memoised first must not matter
+                for i in (1..qs.len()).rev() {
+                    let j = rng.below(i as u64 + 1) as usize;
+                    qs.swap(i, j);
+                }
+                for (kind, f, arg) in qs {
+                    c.query(rng, kind, f, arg);
+                    if c.aborted {
+                        break;
+                    }
                 }
             }
         }
     }
-    if aborted {
-        out.count("cases_aborted_by_panic");
+    if c.aborted {
+        c.out.count("cases_aborted_by_panic");
     }
     // rule: a query was memoised before a later edit, and a file was removed (and ideally re-added)
-    if edits_after_query >= 1 && ever_removed && finals.len() >= 1 {
-        out.line("tag nontrivial");
+    if c.edits_after_query >= 1 && c.ever_removed && !c.finals.is_empty() {
+        c.out.line("tag nontrivial");
     }
-    if readded {
-        out.line("tag readd");
+    if c.readded {
+        c.out.line("tag readd");
     }
-    out.line("end");
+    c.out.line("end");
 }
 
 // ------------------------------------------------------------------------------------------------
@@ -1197,7 +1626,7 @@ fn run_proj_case(
     // duplicate global names across files half of the time: that is where id order can matter
     let pool = if forced.is_some() || rng.bool() {
         Pool {
-            slots: theme_dups(),
+            slots: theme_dups(rng),
             theme: "dups",
         }
     } else {
@@ -1341,7 +1770,13 @@ fn run_proj_case(
                         ));
                         out.count("proj_queries");
                         if va.panic || vb.panic {
-                            out.line(format!("#x panic {}", hex(take_panic().as_bytes())));
+                            let msg = [&va, &vb]
+                                .iter()
+                                .filter(|v| v.panic)
+                                .filter_map(|v| v.detail.as_ref().map(|d| d.0.clone()))
+                                .find(|m| !m.is_empty())
+                                .unwrap_or_else(take_panic);
+                            out.line(format!("#x panic {}", hex(msg.as_bytes())));
                         }
                         if !va.fresh && !va.panic {
                             out.count("proj_differs_from_fresh_same_order");
@@ -1435,8 +1870,14 @@ fn run_freshq(path: &str) -> i32 {
         };
         db.set_source_text(FileId(id), t);
     }
+    let show = std::env::var_os("C13_SHOW").is_some();
     match catch_unwind(AssertUnwindSafe(|| ask(&db, kind, FileId(fid), arg, false).dump(&ident))) {
-        Ok(d) => println!("h={:016x}", fnv(&d)),
+        Ok(d) => {
+            if show {
+                print!("{d}");
+            }
+            println!("h={:016x}", fnv(&d))
+        }
         Err(_) => println!("panic"),
     }
     0
@@ -1449,6 +1890,9 @@ pub fn run(args: &Args) -> i32 {
     let mut out = Out::new();
     let steps = args.extra_usize("steps", 25);
     let proj_every = args.extra_usize("projevery", 5).max(2) as u64;
+    // `--focus 1`: follow-up search after a broken tie (duplicate global names, out-of-order ids,
+    // add->edit->query / add->remove->query / remove->re-add interleavings, sweeps between the ops)
+    let focus = args.extra_usize("focus", 0) != 0;
     let corpus_dir = args
         .extra
         .get("corpus")
@@ -1463,11 +1907,11 @@ pub fn run(args: &Args) -> i32 {
     }));
     for n in args.case_numbers() {
         let mut rng = Rng::for_case(args.seed, n);
-        if n % proj_every == proj_every - 1 {
+        if !focus && n % proj_every == proj_every - 1 {
             run_proj_case(n, &mut rng, steps, &corpus, &mut out, None);
             out.count("cases_proj");
         } else {
-            run_db_case(n, &mut rng, steps, &corpus, &mut out);
+            run_db_case(n, &mut rng, steps, &corpus, &mut out, focus, None);
             out.count("cases_db");
         }
         out.count("cases");
@@ -1476,6 +1920,12 @@ pub fn run(args: &Args) -> i32 {
     if args.only.is_none() || args.only == Some(args.cases) {
         let mut rng = Rng::for_case(args.seed, args.cases);
         run_proj_case(args.cases, &mut rng, 0, &corpus, &mut out, Some(witness_script()));
+        out.count("cases_witness");
+    }
+    // … and the witness of the enum-value overflow (case number = `--cases` + 1)
+    if args.only.is_none() || args.only == Some(args.cases + 1) {
+        let mut rng = Rng::for_case(args.seed, args.cases + 1);
+        run_db_case(args.cases + 1, &mut rng, 0, &corpus, &mut out, false, Some(enum_overflow_witness()));
         out.count("cases_witness");
     }
     let _ = std::panic::take_hook();
